@@ -128,7 +128,7 @@ META = {
     ),
     "outside": [
         "that krylov_exp returns exp(M)v to tolerance (C07, not applicable); agreement with Pulser's QutipEmulator (not installed)",
-        "N > 3 atoms, > 3 steps; floating-point rounding; observables (C13/C14)",
+        "N > 5 atoms, > 5 steps (thorough; quick: N <= 3, 2 steps); floating-point rounding; observables (C13/C14)",
     ],
     "assumptions": ["target times strictly increasing from 0", "interaction matrices symmetric with zero diagonal (C23)"],
 }
@@ -138,7 +138,7 @@ def cases(tier):
     out = []
     grid = [(1, 2, False, False), (2, 2, True, False), (2, 1, False, True), (3, 1, False, False)]
     if tier != "quick":
-        grid += [(2, 3, True, True), (3, 2, True, False), (3, 3, False, False), (1, 3, False, True)]
+        grid += [(2, 3, True, True), (3, 2, True, False), (3, 3, False, False), (1, 3, False, True), (4, 2, True, False), (4, 1, False, True), (2, 5, False, False), (5, 1, False, False)]
     for n, k, slm, init in grid:
         out.append(
             Case(
@@ -151,7 +151,7 @@ def cases(tier):
                 deadline_s=1200,
             )
         )
-    for n, k in ([(2, 2)] if tier == "quick" else [(1, 3), (2, 2), (3, 2)]):
+    for n, k in ([(2, 2)] if tier == "quick" else [(1, 3), (2, 2), (3, 2), (4, 2)]):
         out.append(
             Case(
                 f"sv_callbacks_n{n}_steps{k}",
